@@ -2,6 +2,7 @@ import VProofs.C01
 import VProofs.Lemmas.TagFinal
 import VProofs.Lemmas.TagLocal
 import VProofs.Lemmas.TagWindow0
+import VProofs.Lemmas.TagBoundMain
 /-!
 # C06 — Predicted tags equal the per-token linear classifiers
 
@@ -333,5 +334,276 @@ def C06_exRun00 (bs : List B) : Res Sentence :=
 example : (C06_exRun00 [B.W, B.W]).map (·.tags) = .ok [some ['x'], none, some ['x']] := by decide
 example : (C06_exRun00 [B.W, B.W]).bind (·.tagCandidates 1) = .ok [[(['x'], 5), (['y'], 1)]] := by decide
 example : (C06_exRun00 [B.W, B.W]).bind (·.tagCandidates 3) = .ok [[(['x'], 0), (['y'], 0)]] := by decide
+
+/-! ## no `i32` overflow in the tag scores under a bound on the weights of the tag models
+
+The counterpart of the section "no `i32` overflow under a bound on the weights of the model" of `C01.lean` for everything that
+section left out: the `tag_info` maps of `PositionalWeightWithTag` in the weight mergers, the `tag_weight` tables, the bias vectors
+of the tag predictors and the per-token score vector of `predict_tags`.
+
+**Masses** (`VProofs/Lemmas/TagBoundSpec.lean`).  `TagModel.mass tm` = `absSum tm.bias` plus `absSum w.weights` over every weight
+vector `w` of every character tag n-gram and of every type tag n-gram of `tm` (all relative positions, all classes; entries and
+weight vectors that are listed several times count with their multiplicity — `WFTags` does not forbid duplicates, and the code
+adds them up).  It is per tag model, i.e. per token surface: the score vector of a token only ever receives weights of the token's
+own tag model.  `TagModel.classMass tm c` is the part of it that belongs to class `c` (a sharper bound for the specification).
+`WModel.tagMass m` is the MAXIMUM (not the sum) of the masses of the tag models of `m`: also during construction, vectors of
+different tag models are stored under different keys `(token_id, rel_position)` and are never added to each other.
+
+Definitions used (in `VProofs/Lemmas/TagBound*.lean`): `tagNgramMass`, `tagNgramClassMass`, `TagModel.mass`, `TagModel.classMass`,
+`WModel.tagMass`; `okT`, `okWT` (the tests of the checked `+=`); `PmaScorer.tagWeightsIn`, `TagBuiltFrom`, `TagMergerIn`,
+`TagBuildWithin`; `tagCharPhase`, `tagTypePhase`, `TagPassWithin`, `TagRunWithin`. -/
+
+/-- a tag model of `m` weighs at most the tag mass of `m` … -/
+theorem C06_mass_le_tagMass (m : WModel) (tm : TagModel) (h : tm ∈ m.tagModels) : tm.mass ≤ m.tagMass :=
+  C06B.mass_le_tagMass m tm h
+
+/-- … and the tag mass is the mass of one of them (0 without tag models): it is a maximum, not a sum -/
+theorem C06_tagMass_attained (m : WModel) : m.tagMass = 0 ∨ ∃ tm ∈ m.tagModels, m.tagMass = tm.mass :=
+  C06B.tagMass_attained m
+
+/-- the tag mass does not see the boundary n-grams -/
+theorem C06_tagMass_dropW0 (m : WModel) : (dropW0 m).tagMass = m.tagMass := rfl
+
+/-- **1. the specification, per class**: for EVERY tag model (no well-formedness needed), every text and every position, the score
+the specification gives class `c` is at most the class mass in absolute value, which is at most the mass.  Reason: one weight
+vector `w` of one tag n-gram asks for one end position (`i + w.rel`), so it is added at most once per token. -/
+theorem C06_spec_bounded_class (tm : TagModel) (text : List Char) (i c : Nat) :
+    (getZ (specTagScores tm text i) (c : Int)).natAbs ≤ tm.classMass c ∧ tm.classMass c ≤ tm.mass :=
+  ⟨C06B.specTagScores_class_le tm text i c, C06B.classMass_le_mass tm c⟩
+
+/-- **1. the specification**: every entry of the specified score vector of a token is at most the mass of the token's tag model in
+absolute value.  Rust: the final value of every `scores[c]` in `predict_tags`, i.e. the vector handed to `TagPredictor::predict` and
+stored in `sentence.tag_scores[i]` (by `C06_predictTags` / `C06_candidates` and their window-0 variants). -/
+theorem C06_spec_bounded (tm : TagModel) (text : List Char) (i : Nat) :
+    ∀ x ∈ specTagScores tm text i, x.natAbs ≤ tm.mass :=
+  C06B.specTagScores_mem_le tm text i
+
+/-- … hence at most the tag mass of the model -/
+theorem C06_spec_bounded_model (m : WModel) (tm : TagModel) (htm : tm ∈ m.tagModels) (text : List Char) (i : Nat) :
+    ∀ x ∈ specTagScores tm text i, x.natAbs ≤ m.tagMass :=
+  fun x hx => Nat.le_trans (C06_spec_bounded tm text i x hx) (C06_mass_le_tagMass m tm htm)
+
+/-- **2. construction**: for every model with well-formed tag models from which `Predictor::new(model, true)` succeeds (nothing is
+asked of the boundary part), with `M = (dropW0 m).mass` and `T = m.tagMass`, see `TagBuildWithin`:
+* every coordinate of the bias vector of every `TagPredictor` (`WeightVector::from(bias)`, zero padding of the fixed layout
+  included) is within `T`;
+* every coordinate of every weight vector stored in the tables `tag_weight[token_id][rel_position]` of
+  `CharScorerBoundaryTag` / `TypeScorerBoundaryTag` (zero padding included) is within `T`;
+* each of these two scorers (they are the tag-aware ones unless the model has no tag model at all) is built from the entry list
+  `charEntriesT (dropW0 m) (tag n-grams)` resp. `typeEntriesT …`, its table is the result of `fillTagWeights` on the merged
+  entries, and running both phases of the weight merger on that list — `merger.add` (`*prev_weight += &weight`) for every entry, then
+  `merge()` (`data_to_ref.0 += &data_from.borrow().0`) — with a `PositionalWeightWithTag::add_assign` that checks every coordinate of
+  the boundary weight of its result against `M` AND every coordinate of every vector of the `tag_info` map of its result against `T`,
+  poisoning the weight for good when a check fails, returns exactly the unchecked weights, none of them poisoned.  The keys of a
+  `tag_info` map are distinct, so every elementary `*y += *x` of the inner loop `for (k, v) in &other.tag_info` produces a coordinate
+  of the result of that `add_assign` (`C06B.PWT_add_steps`): no `+` performed on tag weights during construction leaves the bound. -/
+theorem C06_merged_bounded (cfg : Cfg) (m : WModel) (ht : WFTags m) (p : Predictor)
+    (hp : Predictor.new cfg m true = .ok p) :
+    TagBuildWithin (within (dropW0 m).mass) (within m.tagMass) cfg (dropW0 m) p :=
+  C06B.build_within_tag cfg m (dropW0 m) (dropW0_isDrop m) rfl ht.toL p hp _ _
+    (fun x hx => (within_iff _ x).mpr hx) (fun x hx => (within_iff _ x).mpr hx)
+
+/-- the pair `(token_id, tag_predictor)` that `predict_tags` finds for a token surface (`tag_predictor.get(token)`) is the index of a
+tag model of `m` — the one the specification uses, `tagModelOf` — together with the predictor made from it -/
+theorem C06_token_lookup (cfg : Cfg) (m : WModel) (p : Predictor) (hp : Predictor.new cfg m true = .ok p)
+    (tpm : List (List Char × Nat × TagPredictor)) (htpm : p.tagPredictor = some tpm)
+    (tok : List Char) (tid : Nat) (tp : TagPredictor) (h : lookupLast tok tpm = some (tid, tp)) :
+    ∃ tm, m.tagModels[tid]? = some tm ∧ tp = C06L.mkTP cfg tm ∧ tagModelOf m tok = some tm := by
+  obtain ⟨_, h1, _⟩ := C06L.new_tag_ok cfg m p hp
+  rw [h1] at htpm
+  simp only [Option.some.injEq] at htpm
+  subst htpm
+  exact C06B.lookup_tagModel cfg m tok tid tp h
+
+/-- **3. tag prediction, every intermediate score vector**: for a model with well-formed tag models, a predictor built from it with
+tag prediction, a sentence `s1` that `predict` returned, every sentence `s2` that agrees with `s1` on the text and on the recorded
+automaton states (`s1` itself with any boundaries put in, and every intermediate sentence of the loop of `predict_tags`, which writes
+`tags` and `tag_scores` only), every tag model `tm` of `m` with its index `tid` (`C06_token_lookup`: these are the pairs
+`predict_tags` works with) and every position `i` of a last character, with `M = tm.mass` (the mass of THIS tag model), see
+`TagRunWithin`: every entry of the vector `scores` is within `M`
+* after `tag_predictor.bias().add_scores(&mut scores)` on the zero vector;
+* after ANY prefix of the positions `sentence.char_pma_states[i..]` has been processed by the loop of
+  `CharScorerBoundaryTag::add_tag_scores` (`pmaAddTagScores.go` on `(states.drop i).take k` does not fail and leaves a vector within
+  `M`) — i.e. after every call of `WeightVector::add_scores`; within one call every slot holds either its old or its new value, so
+  every `*y += *x` is covered;
+* in the vector the complete character pass leaves;
+* from there, after any prefix of the positions of the type pass (`TypeScorerBoundaryTag::add_tag_scores`; the type scorer of such a
+  predictor is never the cached one);
+* in the final vector, which is `C06L.scoreVec cfg tm s.text i`: the specified scores `specTagScores tm s.text i` followed by the
+  zero padding of the fixed layout — the vector `TagPredictor::predict` reads and `sentence.tag_scores[i]` stores. -/
+theorem C06_running_bounded (cfg : Cfg) (m : WModel) (ht : WFTags m) (p : Predictor)
+    (hp : Predictor.new cfg m true = .ok p) (s s1 : Sentence) (hs : SentOK s) (pid : Nat)
+    (h1 : p.predict pid s = .ok s1)
+    (s2 : Sentence) (htext : s2.text = s1.text) (hcst : s2.cstates = s1.cstates) (htst : s2.tstates = s1.tstates)
+    (tid : Nat) (tm : TagModel) (htid : m.tagModels[tid]? = some tm) (i : Nat) (hi : i < s.text.length) :
+    TagRunWithin (within tm.mass) p s2 tid (C06L.mkTP cfg tm) i (C06L.scoreVec cfg tm s.text i) := by
+  have hne : m.tagModels ≠ [] := by
+    intro h; rw [h] at htid; cases htid
+  have hP := C06B.predOK_of_new_ne cfg m ht.toL p hp hne
+  obtain ⟨hst, _⟩ := C06L.stOK_of_predict cfg m p hP pid s s1 hs.types_eq h1
+  have hst2 : C06L.StOK p s.text s2 :=
+    ⟨htext.trans hst.text_eq, fun sc hsc => hcst.trans (hst.cst sc hsc), fun sc hsc => htst.trans (hst.tst sc hsc)⟩
+  exact C06B.run_within_tag cfg m p hP ht.toL s.text s2 hst2 tid tm htid i hi _ (fun x hx => (within_iff _ x).mpr hx)
+
+/-- **4. no overflow**: if the tag mass of the model — the largest mass of a single tag model — is below `2^31`, then every value
+of 1–3 is in the range of `i32`: the specified class scores; the bias vectors, the `tag_weight` tables and all results of `+=` on
+`tag_info` vectors in both phases of the weight mergers (the boundary part unchecked here, see `C06_no_overflow_all`); and every
+entry of the score vector of every token after the bias and after any prefix of either `add_tag_scores` pass.  So on every `+` that
+`Predictor::new` and `predict_tags` / `fill_tags` perform on tag weights and tag scores, `i32` arithmetic and the unbounded integers of
+the model coincide. -/
+theorem C06_no_overflow (cfg : Cfg) (m : WModel) (ht : WFTags m) (hmass : m.tagMass < 2 ^ 31) (p : Predictor)
+    (hp : Predictor.new cfg m true = .ok p) :
+    (∀ tm ∈ m.tagModels, ∀ text i, ∀ x ∈ specTagScores tm text i, I32 x) ∧
+    TagBuildWithin (fun _ => true) inI32 cfg (dropW0 m) p ∧
+    ∀ s s1 pid, SentOK s → p.predict pid s = .ok s1 →
+      ∀ s2 : Sentence, s2.text = s1.text → s2.cstates = s1.cstates → s2.tstates = s1.tstates →
+      ∀ tid tm, m.tagModels[tid]? = some tm → ∀ i, i < s.text.length →
+        TagRunWithin inI32 p s2 tid (C06L.mkTP cfg tm) i (C06L.scoreVec cfg tm s.text i) := by
+  have hQ : ∀ x : Int, x.natAbs ≤ m.tagMass → inI32 x = true :=
+    fun x hx => (inI32_iff x).mpr (I32_of_natAbs_le _ hmass x hx)
+  refine ⟨fun tm htm text i x hx => I32_of_natAbs_le _ hmass x (C06_spec_bounded_model m tm htm text i x hx),
+    C06B.build_within_tag cfg m (dropW0 m) (dropW0_isDrop m) rfl ht.toL p hp _ _ (fun _ _ => rfl) hQ, ?_⟩
+  intro s s1 pid hs h1 s2 htext hcst htst tid tm htid i hi
+  have hne : m.tagModels ≠ [] := by
+    intro h; rw [h] at htid; cases htid
+  have hP := C06B.predOK_of_new_ne cfg m ht.toL p hp hne
+  obtain ⟨hst, _⟩ := C06L.stOK_of_predict cfg m p hP pid s s1 hs.types_eq h1
+  have hst2 : C06L.StOK p s.text s2 :=
+    ⟨htext.trans hst.text_eq, fun sc hsc => hcst.trans (hst.cst sc hsc), fun sc hsc => htst.trans (hst.tst sc hsc)⟩
+  exact C06B.run_within_tag cfg m p hP ht.toL s.text s2 hst2 tid tm htid i hi _
+    (fun x hx => hQ x (Nat.le_trans hx (C06_mass_le_tagMass m tm (List.mem_of_getElem? htid))))
+
+/-- **4'. no overflow, boundaries and tags together**: for a model that is well-formed up to switched-off kinds, with well-formed tag
+models, whose boundary mass AND tag mass are both below `2^31`: everything `C01_no_overflow` states for `Predictor::new` and
+`Predictor::predict`, everything `C06_no_overflow` states for `Predictor::new`, `predict_tags` and `fill_tags`, and the weight mergers of the
+tag-aware scorers run ONCE with a `PositionalWeightWithTag::add_assign` that checks the boundary coordinates and the tag coordinates of
+its result against the `i32` range are never poisoned (`TagBuildWithin inI32 inI32`).  So `predict` followed by `fill_tags` never leaves
+`i32`. -/
+theorem C06_no_overflow_all (cfg : Cfg) (m : WModel) (hm : WFModel0 m) (ht : WFTags m)
+    (hmass : (dropW0 m).mass < 2 ^ 31) (htmass : m.tagMass < 2 ^ 31) (p : Predictor)
+    (hp : Predictor.new cfg m true = .ok p) :
+    ((∀ text b, I32 (specScore (dropW0 m) text b)) ∧
+      BuildWithin inI32 cfg (dropW0 m) p ∧
+      ∀ s, SentOK s → RunWithin inI32 p s) ∧
+    (∀ tm ∈ m.tagModels, ∀ text i, ∀ x ∈ specTagScores tm text i, I32 x) ∧
+    TagBuildWithin inI32 inI32 cfg (dropW0 m) p ∧
+    ∀ s s1 pid, SentOK s → p.predict pid s = .ok s1 →
+      ∀ s2 : Sentence, s2.text = s1.text → s2.cstates = s1.cstates → s2.tstates = s1.tstates →
+      ∀ tid tm, m.tagModels[tid]? = some tm → ∀ i, i < s.text.length →
+        TagRunWithin inI32 p s2 tid (C06L.mkTP cfg tm) i (C06L.scoreVec cfg tm s.text i) := by
+  obtain ⟨a1, _, a3⟩ := C06_no_overflow cfg m ht htmass p hp
+  exact ⟨C01_no_overflow cfg m hm hmass true p hp, a1,
+    C06B.build_within_tag cfg m (dropW0 m) (dropW0_isDrop m) rfl ht.toL p hp _ _
+      (fun x hx => (inI32_iff x).mpr (I32_of_natAbs_le _ hmass x hx))
+      (fun x hx => (inI32_iff x).mpr (I32_of_natAbs_le _ htmass x hx)), a3⟩
+
+/-! ### 5. sharpness and non-vacuity
+
+`C06_sharpModel`: the example model with a tag model of mass exactly `2^31 − 1` whose class-0 score on the first token of `aba` is
+`2^31 − 1` (bias 7, the character tag n-gram `ba` two characters after the token and the type tag n-gram one character after it all
+vote for class 0): the bound of 1 is attained and the hypothesis of `C06_no_overflow` holds.  `C06_overModel`: one more unit of bias,
+mass `2^31`, score `2^31` — outside `i32`. -/
+
+def C06_sharpModel : WModel :=
+  { C01_exModel with
+    tagModels := [{ token := ['a'], tags := [[['x'], ['y']]], charNgrams := [⟨['b', 'a'], [⟨2, [1073741824, 0]⟩]⟩],
+                    typeNgrams := [⟨[2], [⟨1, [1073741816, 0]⟩]⟩], bias := [7, 0] }] }
+
+def C06_overModel : WModel :=
+  { C01_exModel with
+    tagModels := [{ token := ['a'], tags := [[['x'], ['y']]], charNgrams := [⟨['b', 'a'], [⟨2, [1073741824, 0]⟩]⟩],
+                    typeNgrams := [⟨[2], [⟨1, [1073741816, 0]⟩]⟩], bias := [8, 0] }] }
+
+example : WFTags C06_sharpModel := ⟨by decide, by decide, by decide, by decide⟩
+example : WFTags C06_overModel := ⟨by decide, by decide, by decide, by decide⟩
+example : WFModel0 C06_sharpModel :=
+  { charW_le := by decide, typeW_le := by decide, char_nodup := by decide, char_shape := by decide,
+    type_nodup := by decide, type_shape := by decide, dict_nodup := by decide, dict_shape := by decide }
+
+/-- the bound is attained: mass `2^31 − 1`, score `2^31 − 1`, an `i32` -/
+example : C06_sharpModel.tagMass = 2 ^ 31 - 1 ∧ (C06_sharpModel.tagModels.getD 0 default).mass = 2 ^ 31 - 1 := by decide
+example : (C06_sharpModel.tagModels.getD 0 default).classMass 0 = 2 ^ 31 - 1 ∧
+    (C06_sharpModel.tagModels.getD 0 default).classMass 1 = 0 := by decide
+example : specTagScores (C06_sharpModel.tagModels.getD 0 default) C01_exSentence.text 0 = [2 ^ 31 - 1, 0] := by decide
+example : ∀ x ∈ specTagScores (C06_sharpModel.tagModels.getD 0 default) C01_exSentence.text 0, I32 x := by decide
+
+/-- it cannot be improved: mass `2^31`, score `2^31`, not an `i32` -/
+example : C06_overModel.tagMass = 2 ^ 31 := by decide
+example : specTagScores (C06_overModel.tagModels.getD 0 default) C01_exSentence.text 0 = [2 ^ 31, 0] := by decide
+example : ¬ ∀ x ∈ specTagScores (C06_overModel.tagModels.getD 0 default) C01_exSentence.text 0, I32 x := by decide
+
+/-- non-vacuity of `C06_merged_bounded` / `C06_running_bounded` / `C06_no_overflow` / `C06_no_overflow_all`: the predictor is built
+from the sharp model, prediction succeeds, and `fill_tags` computes the score `2^31 − 1` for the first token (boundaries `[W, W]` put
+in); the boundary mass of the model is far below `2^31` -/
+example : (Predictor.new {} C06_sharpModel true).isOk = true := by decide
+example : (Predictor.new { fixed := false, cache := false, tagPred := true } C06_sharpModel true).isOk = true := by decide
+example : (dropW0 C06_sharpModel).mass = 32 := by decide
+
+def C06_exRunSharp (bs : List B) : Res Sentence :=
+  (Predictor.new {} C06_sharpModel true).bind fun p =>
+    (p.predict 0 C01_exSentence).bind fun s1 =>
+      ({ p with storeTagScores := true } : Predictor).predictTags { s1 with bounds := bs }
+
+example : (C06_exRunSharp [B.W, B.W]).bind (·.tagCandidates 1) = .ok [[(['x'], 2 ^ 31 - 1), (['y'], 0)]] := by decide
+
+/-- the three phases of `tagToken` for that token (`token_id` 0, last character 0), as in `TagRunWithin`: the bias, then the character
+pass (the tag n-gram `ba`, two positions on), then the type pass -/
+def C06_exPhases (f : Predictor → Sentence → Res (List Int)) : Res (List Int) :=
+  (Predictor.new {} C06_sharpModel true).bind fun p => (p.predict 0 C01_exSentence).bind fun s1 => f p s1
+
+example : C06_exPhases (fun _ _ => (C06L.mkTP {} (C06_sharpModel.tagModels.getD 0 default)).bias.addScores (List.replicate 8 0))
+    = .ok [7, 0, 0, 0, 0, 0, 0, 0] := by decide
+example : C06_exPhases (fun p s1 => tagCharPhase p 0 0 s1 [7, 0, 0, 0, 0, 0, 0, 0])
+    = .ok [1073741831, 0, 0, 0, 0, 0, 0, 0] := by decide
+example : C06_exPhases (fun p s1 => tagTypePhase p 0 0 s1 [1073741831, 0, 0, 0, 0, 0, 0, 0])
+    = .ok [2 ^ 31 - 1, 0, 0, 0, 0, 0, 0, 0] := by decide
+
+/-- the tag masses of the example models of this file and of `C01.lean` -/
+example : C01_exModel.tagMass = 4 ∧ C01_exModel0.tagMass = 4 ∧ C06_exModelFar.tagMass = 6 ∧ C06_exModelNear.tagMass = 6 ∧
+    C06_exModel00.tagMass = 6 := by decide
+/-- a maximum, not a sum: two tag models of masses 4 and 6 -/
+example : ({ C01_exModel with tagModels := C01_exModel.tagModels ++ C06_exModelFar.tagModels } : WModel).tagMass = 6 := by decide
+/-- models without tag models (`C01_sharpModel`) have tag mass 0 -/
+example : C01_sharpModel.tagMass = 0 := by decide
+
+/-- the bound of 2 is attained as well, and the checked `+=` does detect a result outside the bound: in these two models the
+character tag n-grams `a` and `ba` of the tag model (same relative position 0) make up its whole mass (`2^31 − 1` and `2^31`) in class
+0; `a` is a suffix of `ba`, so `merge()` adds the vector of `a` to that of `ba` under the key `(0, 0)`: the merged coordinate equals
+the mass, and the merger run with the `i32` check on the tag part is poisoned on the second model only -/
+def C06_sharpMerge : WModel :=
+  { C01_exModel with
+    tagModels := [{ token := ['a'], tags := [[['x'], ['y']]],
+                    charNgrams := [⟨['a'], [⟨0, [1073741824, 0]⟩]⟩, ⟨['b', 'a'], [⟨0, [1073741823, 0]⟩]⟩],
+                    typeNgrams := [], bias := [0, 0] }] }
+
+def C06_overMerge : WModel :=
+  { C01_exModel with
+    tagModels := [{ token := ['a'], tags := [[['x'], ['y']]],
+                    charNgrams := [⟨['a'], [⟨0, [1073741824, 0]⟩]⟩, ⟨['b', 'a'], [⟨0, [1073741824, 0]⟩]⟩],
+                    typeNgrams := [], bias := [0, 0] }] }
+
+/-- the entries `CharScorerBoundaryTag::new` feeds to the merger for a model, after `merger.add` -/
+def C06_exAdded (m : WModel) : List (List Char × PWT) :=
+  addAll PWT.add (charEntriesT (dropW0 m) (m.tagModels.map (·.charNgrams))) []
+
+example : WFTags C06_sharpMerge := ⟨by decide, by decide, by decide, by decide⟩
+example : WFTags C06_overMerge := ⟨by decide, by decide, by decide, by decide⟩
+example : C06_sharpMerge.tagMass = 2 ^ 31 - 1 ∧ C06_overMerge.tagMass = 2 ^ 31 := by decide
+example : (Predictor.new {} C06_sharpMerge true).isOk = true ∧ (Predictor.new {} C06_overMerge true).isOk = true := by decide
+/-- the scorers are the tag-aware ones (second alternative of `TagBuildWithin`), and the stored table `tag_weight[0]` of the first
+model holds the merged coordinate `2^31 − 1` (pattern ids 0 = `a`, 2 = `ba`; two rows, `rel_position` 0 and 1) -/
+example : (Predictor.new {} C06_sharpMerge true).map (fun p => p.charScorer.bind (·.tagWeight))
+    = .ok (some [[[(0, WV.fixed [1073741824, 0, 0, 0, 0, 0, 0, 0]), (2, WV.fixed [2 ^ 31 - 1, 0, 0, 0, 0, 0, 0, 0])], []]]) := by
+  decide
+example : (Merge.mergeEntries PWT.add PWT.empty (C06_exAdded C06_sharpMerge)).map (fun e => (e.1, e.2.tagInfo))
+    = [(['a'], [((0, 0), [1073741824, 0])]), (['a', 'b'], []), (['b', 'a'], [((0, 0), [2 ^ 31 - 1, 0])])] := by decide
+example : (Merge.mergeEntries (Merge.addC (okWT (fun _ => true) inI32) PWT.add) none
+      (Merge.liftE (C06_exAdded C06_sharpMerge))).map (fun e => (e.1, e.2.isSome))
+    = [(['a'], true), (['a', 'b'], true), (['b', 'a'], true)] := by decide
+example : (Merge.mergeEntries PWT.add PWT.empty (C06_exAdded C06_overMerge)).map (fun e => (e.1, e.2.tagInfo))
+    = [(['a'], [((0, 0), [1073741824, 0])]), (['a', 'b'], []), (['b', 'a'], [((0, 0), [2 ^ 31, 0])])] := by decide
+example : (Merge.mergeEntries (Merge.addC (okWT (fun _ => true) inI32) PWT.add) none
+      (Merge.liftE (C06_exAdded C06_overMerge))).map (fun e => (e.1, e.2.isSome))
+    = [(['a'], true), (['a', 'b'], true), (['b', 'a'], false)] := by decide
 
 end V
